@@ -337,7 +337,10 @@ def argument_vectors(mod):
     nums = [0, 1, -1, 2 ** 53, 2 ** 53 + 1, 10 ** 400, -(10 ** 400), 0.0, -0.0, 1.5, nan, inf, -inf, True, D("1.5"), F(1, 3), 1 + 2j]
     pairs = [(a, b) for a in nums[:14:2] for b in nums[1:14:3]] + [(nan, nan), (inf, inf), (2 ** 53 + 1, float(2 ** 53)), (10 ** 400, 1.0),
                                                                   (D(1), 1.5), (F(1, 2), 0.5), (D("9e999999"), D("-9e999999")), (D("sNaN"), 1), (D("NaN"), D("NaN")), (1 + 2j, 1 + 2j), ("a", "b"), ("a", 1),
-                                                                  (None, None), ((1, 2), (1, 3)), ([1], [1]), (b"a", "a"), ({1}, {2})]
+                                                                  (None, None), ((1, 2), (1, 3)), ([1], [1]), (b"a", "a"), ({1}, {2}),
+                                                                  # bytes that are not text in any particular encoding
+                                                                  (b"\x89PNG", b"\xff\xd8\xff"), (b"\xff", b"a"), (bytearray(b"\x80"), b"\x80\x81"),
+                                                                  (b"\xc3", b"\xc3\xa9"), (b"", b"\xfe")]
     vec = {}
     L = lambda *xs: [lambda xs=xs: xs]     # noqa: E731
     def many(items):
